@@ -39,8 +39,10 @@ type (
 	}
 	SQuant struct {
 		Forall bool
+		Seq    bool // seqof k int :: e  (a total sequence k -> e as an SMT array)
 		Vars   []SVar
 		Body   SExpr
+		Trig   []SExpr // optional instantiation pattern {t1, t2}
 	}
 	SCond struct{ C, A, B SExpr }
 	// SZero is T{} (zero composite literal).
@@ -84,6 +86,9 @@ func (e *SQuant) String() string {
 	q := "exists"
 	if e.Forall {
 		q = "forall"
+	}
+	if e.Seq {
+		q = "seqof"
 	}
 	var vs []string
 	for _, v := range e.Vars {
@@ -463,9 +468,9 @@ func (ps *sparser) primary() SExpr {
 		ps.p++
 		return &SStrLit{t.val}
 	case "id":
-		if t.val == "forall" || t.val == "exists" {
+		if t.val == "forall" || t.val == "exists" || t.val == "seqof" {
 			ps.p++
-			q := &SQuant{Forall: t.val == "forall"}
+			q := &SQuant{Forall: t.val == "forall", Seq: t.val == "seqof"}
 			for {
 				n := ps.cur()
 				if n.kind != "id" {
@@ -479,6 +484,16 @@ func (ps *sparser) primary() SExpr {
 				}
 			}
 			ps.expect("::")
+			if ps.cur().kind == "op" && ps.cur().val == "{" {
+				ps.p++
+				for {
+					q.Trig = append(q.Trig, ps.expr())
+					if !ps.accept(",") {
+						break
+					}
+				}
+				ps.expect("}")
+			}
 			q.Body = ps.expr()
 			return q
 		}
